@@ -4,7 +4,7 @@ from functools import partial
 from typing import Any, Optional, Sequence, SupportsFloat
 from sympy import S, Expr, sympify, Abs
 from sympy.physics.units import Dimension, Quantity as SymQuantity
-from sympy.physics.units.systems.si import SI
+from sympy.physics.units.systems.si import SI, dimsys_SI
 from sympy.multipledispatch import dispatch
 from sympy.printing.printer import Printer
 
@@ -94,7 +94,13 @@ class Quantity(DimensionSymbol, SymQuantity):  # type: ignore[misc]  # pylint: d
 
 # Allows for some SymPy comparisons, eg Piecewise function
 @dispatch(Quantity, Quantity)  # type: ignore[misc]
-def _eval_is_ge(lhs: Quantity, rhs: Quantity) -> bool:
+def _eval_is_ge(lhs: Quantity, rhs: Quantity) -> Optional[bool]:
+    # Quantities of inequivalent dimensions cannot be ordered: leave the relation undecided, so that
+    # e.g. `Max(5 m, 3 s)` is not evaluated to `5 m` before the dimensions are checked. A zero value
+    # is compatible with any dimension.
+    if (not dimsys_SI.equivalent_dims(lhs.dimension, rhs.dimension) and lhs.scale_factor != 0 and
+            rhs.scale_factor != 0):
+        return None
     return scale_factor(lhs) >= scale_factor(rhs)
 
 
